@@ -7,6 +7,7 @@ import (
 	"html"
 	"mime"
 	"net/textproto"
+	"reflect"
 	"regexp"
 	"strconv"
 	"strings"
@@ -66,6 +67,8 @@ func init() {
 		"(*regexp.Regexp).FindStringIndex":         inReFind,
 		"(*regexp.Regexp).FindStringSubmatchIndex": inReFind,
 		"(*regexp.Regexp).MatchString":             inReMatch,
+		"(*regexp.Regexp).FindString":              inReFindString,
+		"(*regexp.Regexp).FindStringSubmatch":      inReFindString,
 		"(*sync.Pool).Get":                         inPoolGet,
 		"(*sync.Pool).Put":                         inPoolPut,
 		"(*sync.RWMutex).Lock":                     inLock,
@@ -1008,4 +1011,120 @@ func (m *Machine) assumeASCII(b *Term, who string) {
 	}
 	m.ex.noteAssumed(who + ": non-ASCII bytes not explored")
 	m.addPC(lo)
+}
+
+// FindString / FindStringSubmatch: substrings cut according to the match positions.
+func inReFindString(m *Machine, fr *frame, fn *ssa.Function, a []Value) Value {
+	re := reOf(a[0])
+	s := a[1].(Str)
+	var loc []int
+	if s.isConc() {
+		loc = re.FindStringSubmatchIndex(s.S)
+	} else {
+		loc = m.reSearch(re, s)
+	}
+	sub := fn.Name() == "FindStringSubmatch"
+	if loc == nil {
+		if sub {
+			return []Value(nil)
+		}
+		return Str{}
+	}
+	if !sub {
+		return s.slice(loc[0], loc[1])
+	}
+	out := make([]Value, len(loc)/2)
+	for i := range out {
+		if loc[2*i] >= 0 {
+			out[i] = s.slice(loc[2*i], loc[2*i+1])
+		} else {
+			out[i] = Str{}
+		}
+	}
+	return out
+}
+
+// nativeRegexpCall: any other method of *regexp.Regexp with concrete arguments is called on the
+// real object through reflection; results of simple types are converted back.
+func (m *Machine) nativeRegexpCall(fn *ssa.Function, args []Value) (Value, bool) {
+	if fn.Signature.Recv() == nil || len(args) == 0 {
+		return nil, false
+	}
+	p, ok := args[0].(*Value)
+	if !ok || p == nil {
+		return nil, false
+	}
+	nv, ok := (*p).(Native)
+	if !ok {
+		return nil, false
+	}
+	re, ok := nv.X.(*regexp.Regexp)
+	if !ok || re == nil {
+		return nil, false
+	}
+	meth := reflect.ValueOf(re).MethodByName(fn.Name())
+	if !meth.IsValid() {
+		return nil, false
+	}
+	var in []reflect.Value
+	for _, a := range args[1:] {
+		switch x := a.(type) {
+		case Str:
+			if !x.isConc() {
+				unsupported("(*regexp.Regexp).%s on a symbolic string", fn.Name())
+			}
+			in = append(in, reflect.ValueOf(x.S))
+		case Int:
+			if x.T != nil {
+				unsupported("(*regexp.Regexp).%s with a symbolic integer", fn.Name())
+			}
+			in = append(in, reflect.ValueOf(int(int64(x.V))))
+		default:
+			unsupported("(*regexp.Regexp).%s: argument of type %T", fn.Name(), a)
+		}
+	}
+	if meth.Type().NumIn() != len(in) {
+		return nil, false
+	}
+	out := meth.Call(in)
+	conv := func(v reflect.Value) Value {
+		switch v.Kind() {
+		case reflect.String:
+			return Str{S: v.String()}
+		case reflect.Int:
+			return Int{V: uint64(v.Int())}
+		case reflect.Bool:
+			return Bool{B: v.Bool()}
+		case reflect.Slice:
+			if v.IsNil() {
+				return []Value(nil)
+			}
+			r := make([]Value, v.Len())
+			for i := range r {
+				e := v.Index(i)
+				switch e.Kind() {
+				case reflect.String:
+					r[i] = Str{S: e.String()}
+				case reflect.Int:
+					r[i] = Int{V: uint64(e.Int())}
+				default:
+					unsupported("(*regexp.Regexp).%s: result element kind %s", fn.Name(), e.Kind())
+				}
+			}
+			return r
+		}
+		unsupported("(*regexp.Regexp).%s: result kind %s", fn.Name(), v.Kind())
+		return nil
+	}
+	switch len(out) {
+	case 0:
+		return nil, true
+	case 1:
+		return conv(out[0]), true
+	}
+	t := make(Tuple, len(out))
+	for i := range out {
+		t[i] = conv(out[i])
+	}
+	return t, true
 }
